@@ -13,14 +13,16 @@ from . import common
 
 # property -> (module, per-obligation wall cap quick, thorough)
 REGISTRY = {
-    "C01": ("harness.p_expr", 25, 900),
-    "C04": ("harness.p_expr", 25, 900),
-    "C05": ("harness.p_expr", 25, 900),
-    "C06": ("harness.p_expr", 25, 900),
-    "C10": ("harness.p_expr", 25, 900),
+    # thorough caps are sized so that one thorough command ends within roughly half an hour on 16 cores even when
+    # every costly obligation runs into its cap (obligations that do are reported inconclusive, never as held)
+    "C01": ("harness.p_expr", 25, 150),
+    "C04": ("harness.p_expr", 25, 150),
+    "C05": ("harness.p_expr", 25, 150),
+    "C06": ("harness.p_expr", 25, 150),
+    "C10": ("harness.p_expr", 25, 150),
     "C19": ("harness.p_c19", 120, 1200),
-    "C21": ("harness.p_vsa", 60, 1800),
-    "C22": ("harness.p_vsa", 60, 1800),
+    "C21": ("harness.p_vsa", 60, 300),
+    "C22": ("harness.p_vsa", 60, 300),
 }
 
 
